@@ -25,6 +25,9 @@ EXPLANATION = LEVEL_TEXT
 TRUSTED = ["hand models ESRVerif/Model/Shape.lean, ShapePtr.lean, Labeling.lean (ShapePtr mirrors check_tree's parent-pointer climb statement by statement and is proved equal to the stack model; both tied by exhaustive correspondence incl. the three pointer arrays)",
            "harness/extractors/shape.py (pre-filter rules, bases)", "numpy U100 label truncation not modelled"]
 ASSUMPTIONS = ["labels shorter than 100 characters", "duplicate-freeness is proved for well-formed bases (Labeling.Basis.WellFormed: classes duplicate-free and pairwise disjoint, 'a' only nullary, no label of the form a<digits>); every basis exercised is checked against that predicate by the Lean model", "a labelled tree is identified with (valid shape, prefix-order label list consistent with the arities)"]
+# tables whose committed version may stand in as a hand-written model when the translator cannot read the source;
+# value = the correspondence that then ties it to the code (common.prove / common.decide)
+FALLBACK = {'Shape': 'real get_allowed_shapes / shape_to_functions / check_tree outputs vs the Lean model driven with the same bases (labelling and shape correspondence, every basis)'}
 MODELLED = ["generator.py:check_tree", "generator.py:get_allowed_shapes", "generator.py:shape_to_functions", "generator.py:generate_equations"]
 
 
